@@ -38,7 +38,7 @@ def max_size_term(t):
 
 def run(prog, rep, tier):
     f = need(prog, Q)
-    S = Sym(prog)
+    S = Sym(prog, inline=inline_helpers(prog, "sempler.generators"))
     summ, _ = run_function(S, f)
     raises = [r for r in S.select("raise", qname=Q) if r.exctype == "ValueError"]
     draws = [c for c in S.select("call", qname=Q) if c.callkind == "method" and c.target == ".choice"]
